@@ -129,6 +129,8 @@ def run(tier: str, seed: int) -> int:
     rep.extra["rectangular_instances"] = int(n_rect)
     rep.extra["max_enumerated_probes"] = max(2 ** (max(s[0], s[1]) * s[2]) for s in shp)
     rep.extra["handlers_x_entry_points"] = 9
+    rep.extra["sign_tensors_enumerated_by_tlc"] = sum(2 ** (insts[j]["nin"] * insts[j]["d"]) + 2 ** (insts[j]["nout"] * insts[j]["d"]) for j in todo)
+    rep.extra["key_machine_call_sequences_checked_by_tlc"] = sum(3**n for n in range(6))  # KeyMachineLaw, all sequences up to length 5
     rep.extra["implementation_calls"] = totals
     rep.assumptions = [
         "maps are integer polynomials of degree <= 3 evaluated at integer points (a Jacobian handler sees a map only through its value and derivative at the point); values and estimates are integers / dyadic in float64, compared at 1e-12",
